@@ -219,6 +219,9 @@ func (e *Enc) addMapKeys(fp *footprint, mt types.Type, m string) {
 	}
 }
 
+// currentProperty: the property being checked (set by the check command); scopes `axiom[Cxx] ...`.
+var currentProperty string
+
 // verifyFunction encodes fn against its contract and returns the obligations.
 func verifyFunction(P *Program, db *SpecDB, ti *TypeInfo, fn *ssa.Function, c *Contract, entryExprs map[string]string) *FuncResult {
 	e := newEnc(P, db, ti)
@@ -255,6 +258,12 @@ func verifyFunction(P *Program, db *SpecDB, ti *TypeInfo, fn *ssa.Function, c *C
 	}
 	// axioms
 	for _, ax := range db.Axioms {
+		if ax.PkgPath != "" && P.lookupPkg(ax.PkgPath) == nil {
+			continue // an axiom of a package that is not part of this load (like the contracts of that package)
+		}
+		if len(ax.Props) > 0 && currentProperty != "" && !ax.Props[currentProperty] {
+			continue // a theory axiom scoped to other properties
+		}
 		env := &Env{e: e, vars: map[string]*Val{}, st: st, old: st, pkgPath: ax.PkgPath, imports: ax.Imports}
 		t, err := env.evalBool(ax.E)
 		if err != nil {
